@@ -20,13 +20,16 @@ CFG = {
             "long histories with item replacement, heights up to 9, gaps 0..3, and (round 3) arbitrary events delivered to CaptureEvent / "
             "HandleEvent (j, Down, k, Up, another key, wheel up/down, another button, a key to HandleEvent, a mouse event to CaptureEvent, "
             "FocusIn; a fifth of them with DisableEventHandlers set). distinct = whole op history; non-trivial = "
-            "anything but the constructor line.",
+            "anything but the constructor line. The thorough tier (also the check's fallback search) is capped near 5 M lines: exhaustive "
+            "histories of length >= 4 are sub-sampled with a seed-dependent stride.",
     "trusted_base": [
         "vaxis.Characters (uniseg segmentation, widths) is a parameter of the pager model: the harness passes the characters",
         "Window.Println / SetCell / Fill (clipping, C11) are not re-modelled here: the two facts used (a Println row >= height draws nothing; a SetCell outside the window changes nothing) are proved from C11's model (simple_list_println_rows, setcell_outside_ignored)",
         "uint is 64 bit (Go on amd64/arm64) in the Dynamic list model",
         "the interpreter of the regenerated bodies (Model/DynExec.lean: parser of the flat statement lines, uint typing rule, what it keeps of surfaces - index, row, height; columns, cells and the child of the cursor surface are not represented) is the semantics of the Go subset the theorems draw_body_eq_model / insert_children_body_eq_model / handle_event_body_eq_model / capture_event_body_eq_model speak about; it is validated against the real code by the correspondence run (every dl op is run through it)",
         "the *_body_eq_model theorems go through C19Tie.skeleton_* (regenerated body = the expected copy in Lemmas/DynSkelExpected.lean) and Lemmas/DynTrees.parse_* (kernel-evaluated parser): a change of list.go makes skeleton_* fail rather than re-proving the equality for the new body",
+        "the interpreter of the widgets' regenerated bodies (Model/WidExec.lean: int fields and locals, built-in min/max - justified by minmax_body_eq_model -, Go's truncating division, characters/cells as bytes+width, a style as its attribute, the pager's line pointers as value plus a 'shared' flag instead of a heap (appending to a shared line is stuck), the window with clipped SetCell/Println, range loops over snapshots of the collection, the call of Layout with fresh locals) is the semantics of the Go subset the theorems of Props/C19Wid.lean speak about; validated against the real code by the correspondence run (every sl/pg/sb op is run through it); New and line.append are pinned syntactically only",
+        "the *_body_eq_model theorems of Props/C19Wid.lean go through wid_bodies_as_expected (regenerated body = the copy in Lemmas/WidSkelExpected.lean) and Lemmas/WidTrees.parse_*: a change of list.go / pager.go / scrollbar.go makes wid_bodies_as_expected fail rather than re-proving the equality for the new body",
         "Props/C19.lean imports Spec/Surface.lean and Model/Window.lean (C14's spec of the painter's algorithm) for dyn_selected_on_top",
         "vxfw.NewSurface / AddChild / WriteCell (C14) are not re-modelled: the surface-size statement is syntactic (facts_surface_is_max) plus the harness reading s.Size",
     ],
@@ -48,7 +51,15 @@ CFG = {
                   "insert_children_body_eq_model, handle_event_body_eq_model, capture_event_body_eq_model); the selected item is on top "
                   "of the painter's algorithm also with the cursor gutter (two-level tree); an endless Builder of zero-height widgets "
                   "makes Draw run out of fuel for every fuel (F119i, recorded); the pager's content-complete clause holds over scroll "
-                  "histories (every line reachable by ScrollDown, each line once per screenful, paging meets every line).",
+                  "histories (every line reachable by ScrollDown, each line once per screenful, paging meets every line). Round 4: the "
+                  "bodies of widgets/list List (all methods, min, max), widgets/pager Model (Draw with the call of Layout, Layout, ScrollDown, "
+                  "ScrollUp) and widgets/scrollbar Draw are no longer pinned textually: they are regenerated as syntax (Gen/WidSkel.lean), EXECUTED "
+                  "by an interpreter (Model/WidExec.lean) and proved equal to the models for all states/sizes/texts (list_step_body_eq_model, "
+                  "pager_draw_body_eq_model, pager_layout_body_eq_model, scrollbar_draw_body_eq_model) and over whole histories "
+                  "(list_history_body_eq_model, pager_history_body_eq_model); pager_offset_clamped_body: after ANY history incl. width changes and "
+                  "an Offset written before the first Draw, the executed Draw leaves 0 <= Offset <= max 0 (lines - h) for the lines laid out for "
+                  "that window's width. F119i evaluated: a cap on zero-progress iterations is not a repair (zero_heights_then_content: k empty "
+                  "widgets followed by a visible one are drawn with the visible one at row 0, for every k).",
     "level_note": "Proved for all inputs/histories: simple_list_safe, simple_list_selected_visible, simple_list_rows_in_order, "
                   "pager_complete, pager_offset_clamped, pager_scroll_history, pager_draw_rows, pager_row_keeps_characters "
                   "(characters >= 1 column wide, window >= 1 column), scrollbar_in_track, scrollbar_all_inputs, dyn_layout and "
@@ -72,7 +83,15 @@ CFG = {
                   "pager_screen_lines_once, pager_pages_cover_text, zero_heights_draw_all + endless_builder_never_returns (F119i). So the "
                   "step from the regenerated syntax to Model/DynList.lean is no longer a transcription: it is a theorem (via skeleton_* and "
                   "the kernel-evaluated parser); validated by correspondence only: that the interpreter's semantics is Go's for this subset "
-                  "(the driver runs every dl op through it: 0 disagreements with model and implementation), Println/SetCell rows.",
+                  "(the driver runs every dl op through it: 0 disagreements with model and implementation), Println/SetCell rows. "
+                  "Round 4 (Props/C19Wid.lean, 14 theorems): wid_fully_recognised, wid_bodies_as_expected, gen_bodies_parsed, list_rhs_is_gen, "
+                  "minmax_body_eq_model, list_index_body_eq_model, list_step_body_eq_model (every List method incl. Draw's range loop over the checked "
+                  "slice: same state, rows, panics), list_history_body_eq_model, pager_layout_body_eq_model, pager_draw_body_eq_model (state AND window "
+                  "cell by cell), pager_scroll_body_eq_model, pager_history_body_eq_model, pager_offset_clamped_body, scrollbar_draw_body_eq_model "
+                  "(all integers, fuel >= h+2: the loop terminates) - proved for all inputs. The textual pins of the extractor (embedded expected bodies) "
+                  "are gone; the extractor degrades (UNTRANSLATED placeholder) instead of failing. Validated by correspondence only: that "
+                  "Model/WidExec.lean's semantics is Go's for this subset (every sl/pg/sb op is run through it beside the model: 0 disagreements). "
+                  "Modelled, not verified: pointer aliasing of pager lines (value + shared flag), the Fill cell, styles beyond the attribute.",
     "assumptions": [
         "Dynamic list: the Builder has fewer than 2^63 items and is prefix-closed (nil from the first missing index on); an endless Builder is covered only by F119i (Draw does not return when all its widgets have height 0 and the gap is 0)",
         "Draw contexts are bounded (Max.Width, Max.Height != 65535), as Dynamic.Draw itself requires",
